@@ -1707,11 +1707,9 @@ func ExecSelect(query *Query, current []any) ([]any, error) {
 		switch current := current.(type) {
 		case []any:
 			{
-				rs, err := ExecSelect(query, current)
-				if err != nil {
-					return nil, err
-				}
-				copy = append(copy, rs)
+				// an inner dimension: exec has already run the whole query, select list
+				// included, inside it
+				copy = append(copy, current)
 			}
 		case Map:
 			{
